@@ -367,6 +367,70 @@ def run(tier, seed):
                 fails += 1
                 rep.violation("decorator:body-exception", {"why": "a body raising %s (generator %s): asyncstdlib %r contextlib %r" % (
                     exc_t.__name__, {False: "plain", True: "with try/finally", "swallow": "swallowing the exception"}[handles], ra, rs)})
+    # the exception object the body raised is the one the manager sees and the one the caller gets -- also when it is falsy
+    class _EmptyError(Exception):
+        def __len__(self):
+            return 0
+    for lib_name, lib in (("asyncstdlib", a.contextmanager), ("contextlib", _cl.asynccontextmanager)):
+        seen = []
+
+        @lib
+        async def spy():
+            try:
+                yield
+            except BaseException as e:  # noqa
+                seen.append(e)
+                raise
+        err = _EmptyError()
+
+        @spy()
+        async def failing():
+            raise err
+        try:
+            _drive(failing())
+            out = "returned"
+        except BaseException as e:  # noqa
+            out = "same object" if e is err else "%s" % type(e).__name__
+        ok = out == "same object" and len(seen) == 1 and seen[0] is err
+        if lib_name == "asyncstdlib":
+            rep.count(("falsy-body-exception",), True)
+            if not ok:
+                fails += 1
+                rep.violation("decorator:body-exception", {"why": "a falsy exception raised by the body: the caller got %s, the manager saw %r (identical object: %r)" % (
+                    out, [type(x).__name__ for x in seen], [x is err for x in seen])})
+    # a class-based decorator without _recreate_cm of its own is the manager of every call: its own state shows the calls
+    class Counting(acl.ContextDecorator):
+        def __init__(s):
+            s.entered = s.exited = s.active = 0
+            s.seen_active = []
+
+        async def __aenter__(s):
+            s.entered += 1
+            s.active += 1
+
+        async def __aexit__(s, *exc):
+            s.exited += 1
+            s.active -= 1
+            return False
+    counting = Counting()
+
+    @counting
+    async def counted(x):
+        counting.seen_active.append(counting.active)
+        if x == 1:
+            raise KeyError(x)
+        return x
+    outs = []
+    for x in range(3):
+        try:
+            outs.append(_drive(counted(x)))
+        except KeyError:
+            outs.append("KeyError")
+    rep.count(("class-based-state",), True)
+    if (counting.entered, counting.exited, counting.active, counting.seen_active, outs) != (3, 3, 0, [1, 1, 1], [0, "KeyError", 2]):
+        fails += 1
+        rep.violation("decorator:class-based-state", {"why": "class-based decorator keeping its state on itself: entered %d exited %d active %d, active during the bodies %r, results %r" % (
+            counting.entered, counting.exited, counting.active, counting.seen_active, outs)})
     # a class-based decorator that provides fresh single-use instances through _recreate_cm; the instances are falsy
     for falsy in (False, True):
         made = []
